@@ -310,6 +310,13 @@ pub fn corpus() -> Vec<String> {
         "if x then\n\tfoo( 1,2 )\n\tbar{ a=1 }\nend\n".into(),
         "local é = 'ü'\nprint ( é )\n".into(),
         "return {\n  f = function(a, b)\n      return a+b\n  end,\n}\n".into(),
+        // a quoted string continued over lines (backslash-newline, \\z) inside a nested block that gets re-indented
+        "do\n  do\n      local s = \"first \\z\n           second\" .. \"x\\\n   y\"\n      print( s )\n  end\nend\n".into(),
+        // a statement sharing its line with the head / tail of another multi-line statement
+        "local   y=2 foo(\n  a\n)\nlocal z  =  3\n".into(),
+        "foo(\n  a\n) local   y=2\nbar( y )\n".into(),
+        "x = a - -b\ny = 1 .. x\nf(\"a\", b)\n".into(),
+        "x = 1 -- last".into(),
     ]
 }
 
@@ -357,7 +364,11 @@ pub fn run(args: &Args, report: &mut Report) {
     for i in 0..n_docs {
         let mut g = Gen::new(&mut rng);
         g.docs = i % 3 != 0;
-        docs.push(g.program(if i % 4 == 0 { 3 } else { 8 }));
+        if i % 3 == 1 {
+            docs.push(g.tricky_program(5));
+        } else {
+            docs.push(g.program(if i % 4 == 0 { 3 } else { 8 }));
+        }
     }
     let budget = if args.thorough() { 400 } else { 60 };
     let mut seen = HashSet::new();
